@@ -412,7 +412,10 @@ def run(ctx):
                     is_tab = (is_const(tab) and list(tab[1]) == tbl) or (tab[0] == "global" and tab[1].endswith("_CRC8_854_TABLE"))
                     xor_ok = idx[0] == "bin" and idx[1] == "&" and is_const(idx[3], 255) and strip(idx[2])[0] == "bin" and strip(idx[2])[1] == "^" \
                         and {strip(strip(idx[2])[2]), strip(strip(idx[2])[3])} == {a_, m_}
-                    walk_ok = is_tab and xor_ok and strip(t[2][1]) == ("param", cf.params[0]) and is_const(strip(t[2][2]), 0)
+                    seq_ = strip(t[2][1])
+                    while call_is(seq_, "iter", "list", "tuple") and len(seq_[2]) == 1:   # the same elements in the same order
+                        seq_ = strip(seq_[2][0])
+                    walk_ok = is_tab and xor_ok and seq_ == ("param", cf.params[0]) and is_const(strip(t[2][2]), 0)
     ctx.ob("C12.e", "msmart.crc8.calculate", walk_ok, "calculate() is crc = TABLE[(crc ^ byte) & 0xFF] over the data, starting from 0", func="msmart.crc8.calculate",
            file=crcmod.rel, construct="table walk", fail="crc8.calculate is not the standard table walk from 0 over every byte")
     from ..shared import check as shared_check
